@@ -384,3 +384,204 @@ def parse_inst_problems(ctx):
             out.append((inst, "; ".join(pb) or None, [x[0] if len(x) == 1 else x for x in evs]))
         return out
     return ctx.memo("headerx_inst", build)
+
+
+# ---------------------------------------------------------------------------------------------------- ModuleHeader / Builder header API
+def _hdr(version=None):
+    return ("struct", "ModuleHeader", {"magic_number": ("sym", "F_MAGIC"), "version": version if version is not None else ("sym", "F_VERSION"),
+                                       "generator": ("sym", "F_GENERATOR"), "bound": ("sym", "F_BOUND"), "reserved_word": ("sym", "F_RESERVED")})
+
+
+def _run(ctx, what, f, env):
+    h = NH(ctx)
+    ev = progx.make(h, what)
+    h.self_ty = what.split("::")[0]
+    try:
+        return ev.run(f, env), env
+    except SPanic as x:
+        return ("panic", str(x)), env
+
+
+def header_api_problems(ctx):
+    """[(instance, problem or None, where-args)] for ModuleHeader::{new,set_version,version}, its assembly, Builder::{set_version,version}"""
+    def build():
+        out = []
+        CON, ASM, BLD = "rspirv::dr::constructs", "rspirv::binary::assemble", "rspirv::dr::build"
+        maj, mi = ("byte", "major"), ("byte", "minor")
+        packed = asmx.w32([0, mi, maj, 0])
+        lanes = asmx.w32([("byte", "b%d" % i) for i in range(4)])
+
+        def guard(inst, wh, fn):
+            try:
+                pb = fn()
+            except Anchor as ex:
+                pb = "not analysable: %s" % ex
+            out.append((inst, pb, wh))
+        sm = {c["name"]: c for c in ctx.spirv.items("spirv", "const") if c["name"] in ("MAJOR_VERSION", "MINOR_VERSION")}
+        from ..tree import int_of
+
+        def t_new():
+            f = ctx.rspirv.fn(CON, "new", "ModuleHeader", False)
+            r, _ = _run(ctx, "ModuleHeader::new", f, {f["sig"]["params"][0][0]: ("sym", "BOUND")})
+            if not (isinstance(r, tuple) and r[0] == "struct" and r[1] == "ModuleHeader"):
+                return "yields %s" % short(r)
+            fl = r[2]
+            want_v = (int_of(sm["MAJOR_VERSION"]["init"]) << 16) | (int_of(sm["MINOR_VERSION"]["init"]) << 8)
+            v = fl.get("version")
+            vi = v if isinstance(v, int) else (sum((x << (8 * i)) for i, x in enumerate(v[1])) if isinstance(v, tuple) and v[0] == "w32" and all(isinstance(x, int) for x in v[1]) else None)
+            pb = []
+            if fl.get("bound") != ("sym", "BOUND"):
+                pb.append("bound is %s, not the argument" % short(fl.get("bound")))
+            if fl.get("magic_number") not in (MAGIC, 0x07230203):
+                pb.append("magic number is %s" % short(fl.get("magic_number")))
+            if vi != want_v:
+                pb.append("version is %s, not 0x%08x (spirv::MAJOR_VERSION.MINOR_VERSION)" % (short(v), want_v))
+            if fl.get("reserved_word") != 0:
+                pb.append("reserved word is %s" % short(fl.get("reserved_word")))
+            return "; ".join(pb) or None
+        guard("ModuleHeader::new(BOUND)", ("new", "ModuleHeader"), t_new)
+
+        def t_set():
+            f = ctx.rspirv.fn(CON, "set_version", "ModuleHeader", False)
+            ps = [q[0] for q in f["sig"]["params"] if q[0] != "self"]
+            hv = _hdr()
+            r, _ = _run(ctx, "ModuleHeader::set_version", f, {"self": hv, ps[0]: maj, ps[1]: mi})
+            if isinstance(r, tuple) and r and r[0] == "panic":
+                return "panics: %s" % r[1]
+            want = dict(_hdr()[2], version=packed)
+            got = dict(hv[2], version=asmx.as_w32(hv[2]["version"]) or hv[2]["version"])
+            return None if got == want else "leaves %s" % short(hv)
+        guard("ModuleHeader::set_version(major, minor)", ("set_version", "ModuleHeader"), t_set)
+
+        def t_ver():
+            f = ctx.rspirv.fn(CON, "version", "ModuleHeader", False)
+            r, _ = _run(ctx, "ModuleHeader::version", f, {"self": _hdr(lanes)})
+            return None if r == ("tuple", [("byte", "b2"), ("byte", "b1")]) else "yields %s for the version word b0..b3, not (b2, b1)" % (r,)
+        guard("ModuleHeader::version()", ("version", "ModuleHeader"), t_ver)
+
+        def t_asm():
+            f = ctx.rspirv.fn(ASM, "assemble_into", "ModuleHeader", "Assemble")
+            res = [q[0] for q in f["sig"]["params"] if q[0] != "self"][0]
+            r, env = _run(ctx, "ModuleHeader::assemble_into", f, {"self": _hdr(), res: ("list", [("sym", "EARLIER")])})
+            if isinstance(r, tuple) and r and r[0] == "panic":
+                return "panics: %s" % r[1]
+            want = ("list", [("sym", "EARLIER")] + [("sym", "F_" + n) for n in ("MAGIC", "VERSION", "GENERATOR", "BOUND", "RESERVED")])
+            got = env[res]
+            return None if (got[0], list(got[1])) == (want[0], want[1]) else "appends %s" % short(("list", list(got[1])[1:]))
+        guard("ModuleHeader::assemble_into", ("assemble_into", "ModuleHeader", "assemble.rs"), t_asm)
+
+        def bld(header):
+            return ("struct", "Builder", {"module": ("struct", "Module", {"header": header}), "next_id": ("sym", "NEXT"),
+                                          "selected_function": NONE, "selected_block": NONE})
+
+        def t_bset(have):
+            def run():
+                f = ctx.rspirv.fn(BLD, "set_version", "Builder")
+                ps = [q[0] for q in f["sig"]["params"] if q[0] != "self"]
+                b = bld(("some", _hdr()) if have else NONE)
+                r, _ = _run(ctx, "Builder::set_version", f, {"self": b, ps[0]: maj, ps[1]: mi})
+                if isinstance(r, tuple) and r and r[0] == "panic":
+                    return "panics: %s" % r[1]
+                hd = b[2]["module"][2]["header"]
+                if not (isinstance(hd, tuple) and hd[0] == "some" and hd[1][0] == "struct"):
+                    return "leaves the header %s" % short(hd)
+                fl = dict(hd[1][2])
+                v = asmx.as_w32(fl.pop("version")) or None
+                if v != packed:
+                    return "the header version becomes %s" % short(v)
+                if have and fl != {k: x for k, x in _hdr()[2].items() if k != "version"}:
+                    return "other header fields change: %s" % short(hd[1])
+                if b[2]["next_id"] != ("sym", "NEXT"):
+                    return "next_id changes"
+                return None
+            return run
+        guard("Builder::set_version (header present)", ("set_version", "Builder"), t_bset(True))
+        guard("Builder::set_version (no header yet)", ("set_version", "Builder"), t_bset(False))
+
+        def t_bver(have):
+            def run():
+                f = ctx.rspirv.fn(BLD, "version", "Builder")
+                b = bld(("some", _hdr(lanes)) if have else NONE)
+                r, _ = _run(ctx, "Builder::version", f, {"self": b})
+                want = ("some", ("tuple", [("byte", "b2"), ("byte", "b1")])) if have else NONE
+                return None if r == want else "yields %s" % (r,)
+            return run
+        guard("Builder::version (header present)", ("version", "Builder"), t_bver(True))
+        guard("Builder::version (no header)", ("version", "Builder"), t_bver(False))
+        return out
+    return ctx.memo("headerx_api", build)
+
+
+def builder_init_problems(ctx):
+    BLD = "rspirv::dr::build"
+    out = []
+
+    def guard(inst, wh, fn):
+        try:
+            pb = fn()
+        except Anchor as ex:
+            pb = "not analysable: %s" % ex
+        out.append((inst, pb, wh))
+
+    def t_new():
+        f = ctx.rspirv.fn(BLD, "new", "Builder")
+        r, _ = _run(ctx, "Builder::new", f, {})
+        if not (isinstance(r, tuple) and r[0] == "struct" and r[1] == "Builder"):
+            return "yields %s" % short(r)[:120]
+        fl = r[2]
+        pb = []
+        if fl.get("next_id") != 1:
+            pb.append("ids start at %s" % short(fl.get("next_id")))
+        if fl.get("selected_function") != NONE or fl.get("selected_block") != NONE:
+            pb.append("a function or block is selected initially")
+        return "; ".join(pb) or None
+    guard("Builder::new()", ("new", "Builder", "build/mod.rs"), t_new)
+
+    def t_from():
+        f = ctx.rspirv.fn(BLD, "new_from_module", "Builder")
+        mod = ("struct", "Module", {"header": ("some", _hdr())})
+        r, _ = _run(ctx, "Builder::new_from_module", f, {f["sig"]["params"][0][0]: mod})
+        if not (isinstance(r, tuple) and r[0] == "struct" and r[1] == "Builder"):
+            return "yields %s" % short(r)[:120]
+        fl = r[2]
+        pb = []
+        if fl.get("next_id") != ("sym", "F_BOUND"):
+            pb.append("continuation starts ids at %s, not at the header bound" % short(fl.get("next_id")))
+        if fl.get("module") is not mod:
+            pb.append("the module is not the one given")
+        return "; ".join(pb) or None
+    guard("Builder::new_from_module(module with header)", ("new_from_module", "Builder", "build/mod.rs"), t_from)
+    return out
+
+
+def report(chk, rule, raw, problems, only=None, keyp="hdr"):
+    n = 0
+    for inst, pb, wh in problems:
+        if only is not None and not any(o in inst for o in only):
+            continue
+        n += 1
+        chk.check(rule, pb is None, inst, "%s: %s" % (inst, pb), raw.where(*wh), key="%s:%s" % (keyp, inst))
+    return n
+
+
+def tracker_resolve_problem(ctx):
+    """TypeTracker::new() is empty; resolve(id) is Some(the tracked type) for a tracked id and None for any other id"""
+    TRK = "rspirv::binary::tracker"
+    fn = ctx.rspirv.fn(TRK, "new", "TypeTracker")
+    r, _ = _run(ctx, "TypeTracker::new", fn, {})
+    if not (isinstance(r, tuple) and r[0] == "struct" and r[1] == "TypeTracker"):
+        return "TypeTracker::new yields %s" % short(r)
+    maps = [k for k, v in r[2].items() if isinstance(v, tuple) and v and v[0] == "map"]
+    if len(maps) != 1 or len(r[2]) != 1 or r[2][maps[0]][1]:
+        return "TypeTracker::new yields %s, not a tracker with one empty map" % short(r)
+    rf = ctx.rspirv.fn(TRK, "resolve", "TypeTracker")
+    ip = [q[0] for q in rf["sig"]["params"] if q[0] != "self"][0]
+    ty = ("enum", "Type::Integer", [32, False])
+    r[2][maps[0]][1][("sym", "ID")] = ty
+    for arg, want in ((("sym", "ID"), ("some", ty)), (("sym", "OTHER_ID"), NONE)):
+        got, _ = _run(ctx, "TypeTracker::resolve", rf, {"self": r, ip: arg})
+        if got != want:
+            return "resolve(%s) on a tracker holding ID -> Integer(32, false) yields %s" % (arg[1], short(got))
+    if r[2][maps[0]][1] != {("sym", "ID"): ty}:
+        return "resolve changes the map"
+    return None
